@@ -188,9 +188,95 @@ def effective(case):
 IGNORED = {"__dict__", "__weakref__", "__doc__", "__annotations__", "__module__"}
 
 
+NEW_VALUE = {"int": 7, "list": [7], "dict": {"z": 7}, "set": {7}}
+
+
+def run_split(ctx, case):
+    """The attributes are split over a spec parent (first k) and a spec child (the rest): a singular / plural collision
+    across the two levels is resolved in the child exactly as within one class, and never disturbs the parent."""
+    from spec_classes import spec_class
+
+    attrs = [tuple(a) for a in case["attrs"]]
+    k = case["split"]
+    pa, ca = attrs[:k], attrs[k:]
+
+    def mk(name, bases, part):
+        ns = {"__module__": "vf.generated", "__annotations__": {a: TYPES[t] for a, t in part}}
+        for a, t in part:
+            ns[a] = DEFAULTS[t].copy() if hasattr(DEFAULTS[t], "copy") else DEFAULTS[t]
+        return type(name, bases, ns)
+
+    names_p, err_p = expected_names(pa)
+    names_c, err_c = expected_names(attrs)
+    alt = expected_names(ca + pa)
+    if err_p is not False or err_c == "shadow" or (alt[1], {n: v[0] for n, v in (alt[0] or {}).items()}) != (err_c, {n: v[0] for n, v in (names_c or {}).items()}):
+        ctx.count("split:abstained")  # the parent alone is already colliding, or the claim order (undocumented) matters
+        ctx.case(case, False)
+        return
+    Parent = spec_class(bootstrap=case["eager"])(mk("Pk", (), pa))
+    if case.get("touch_parent_first"):
+        Parent.__spec_class__  # (a lazily bootstrapped class has no helpers before its first use)
+        for n in names_p:
+            getattr(Parent, n)
+    try:
+        Child = spec_class(bootstrap=case["eager"])(mk("K", (Parent,), ca))
+        Child.__spec_class__
+        cinst = Child()
+    except RuntimeError as e:
+        if err_c is True:
+            ctx.count("split:collision_raised")
+            ctx.case(case, True)
+            return
+        ctx.fail("split|unexpected_runtime_error", case, f"decorating the child raised {e!r}; the naming rules allow it")
+        return
+    if err_c is True:
+        ctx.fail("split|collision_not_detected", case, f"attributes {attrs} split {k}: singular form and fallback are both taken, but decoration succeeded")
+        return
+
+    def exercise(cls, inst, names, all_attrs, who):
+        for n, (a, role) in sorted(names.items()):
+            if a is None:
+                continue
+            if not callable(getattr(cls, n, None)):
+                ctx.fail(f"split|{who}|missing|{role}", case, f"{who} class has no helper {n} (for attribute {a!r}); attributes {attrs} split {k}")
+                return False
+            if role not in ("elem:with", "scalar:with"):
+                continue
+            t = dict(all_attrs)[a]
+            try:
+                before = {x: repr(getattr(inst, x, None)) for x, _ in all_attrs}
+                if role == "scalar:with":
+                    res = getattr(inst, n)(NEW_VALUE[t])
+                else:
+                    res = getattr(inst, n)("z", 5) if t == "dict" else getattr(inst, n)(5)
+                after = {x: repr(getattr(res, x, None)) for x, _ in all_attrs}
+            except Exception as ex:
+                ctx.fail(f"split|{who}|helper_broken|{role}", case, f"{who}.{n} raised {ex!r}; attributes {attrs} split {k}")
+                return False
+            changed = [x for x in before if before[x] != after[x]]
+            if changed != [a]:
+                ctx.fail(f"split|{who}|helper_targets_other_attribute|{role}", case, f"{who}.{n} belongs to {a!r} but changed {changed}; attributes {attrs} split {k}")
+                return False
+        return True
+
+    if not exercise(Child, cinst, names_c, attrs, "child"):
+        return
+    # the parent keeps its own helper names and behaviour, whatever the child had to rename
+    if not exercise(Parent, Parent(), names_p, pa, "parent"):
+        return
+    extra = sorted(n for n in dir(Parent) if n.split("_")[0] in ("with", "update", "transform", "reset", "without") and n not in names_p and not n.startswith("_"))
+    if extra:
+        ctx.fail("split|parent|extra_helpers", case, f"parent gained helpers {extra} when the child was decorated")
+        return
+    ctx.count("split:ok")
+    ctx.case(case, _has_collision(attrs))
+
+
 def run_case(ctx, case):
     from spec_classes import spec_class
 
+    if case.get("split"):
+        return run_split(ctx, case)
     attrs = [tuple(a) for a in case["attrs"]]
     select = case["select"]
     eff = effective(case)
@@ -370,6 +456,9 @@ def enum_cases():
         for ud in (["__init__"], ["__repr__"], ["__eq__"], ["__new__"], ["__init__", "__repr__", "__eq__", "__new__"]):
             for eager in (True, False):
                 yield base_case(attrs, user_dunders=ud, eager=eager)
+        for k in range(1, len(attrs)):
+            for eager, touch in itertools.product([True, False], [False, True]):
+                yield base_case(attrs, split=k, eager=eager, touch_parent_first=touch)
         names, err = expected_names(attrs)
         if err is True or not names:
             continue
@@ -388,6 +477,9 @@ def case_strategy(draw):
     attrs = src.pick(ATTR_SETS)
     c = base_case(attrs, select=src.pick(["annotations", "annotations", "attrs", "attrs_typed", "skip"] + list(MIXED)), eager=src.chance(1, 2), private=src.chance(1, 3),
                   defaults=src.chance(3, 4))
+    if len(attrs) > 1 and src.chance(1, 6):
+        c.update(select="annotations", split=1 + src.choice(len(attrs) - 1), touch_parent_first=src.chance(1, 2))
+        return c
     c["switches_off"] = [s for s in ("init", "repr", "eq") if src.chance(1, 6)]
     c["user_dunders"] = [d for d in ("__init__", "__repr__", "__eq__", "__new__") if src.chance(1, 5)]
     names, err = expected_names(effective(c))
